@@ -7,6 +7,7 @@ import (
 	"go/ast"
 	"go/parser"
 	"go/token"
+	"math/big"
 	"os"
 	"os/exec"
 	"path/filepath"
@@ -840,7 +841,23 @@ func replayFile(rc *runCtx, path string) int {
 			fmt.Println(err)
 			return 2
 		}
-		v := &interp.Violation{Kind: vf.Kind, Msg: vf.Msg}
+		v := &interp.Violation{Kind: vf.Kind, Msg: vf.Msg, Model: map[string]interp.ModelVal{}}
+		for k, val := range vf.Model {
+			switch x := val.(type) {
+			case float64:
+				v.Model[k] = interp.ModelVal{S: interp.SInt, I: big.NewInt(int64(x))}
+			case bool:
+				v.Model[k] = interp.ModelVal{S: interp.SBool, B: x}
+			case string:
+				if n, ok := new(big.Int).SetString(x, 10); ok && (strings.HasSuffix(k, "?i") || strings.HasSuffix(k, "?c")) {
+					v.Model[k] = interp.ModelVal{S: interp.SInt, I: n}
+				} else if strings.HasSuffix(k, "?b") && (x == "true" || x == "false") {
+					v.Model[k] = interp.ModelVal{S: interp.SBool, B: x == "true"}
+				} else {
+					v.Model[k] = interp.ModelVal{S: interp.SStr, Str: x}
+				}
+			}
+		}
 		ok, detail := replayViolation(rc, h, ovPaths, v, path)
 		fmt.Printf("replay %s: reproduced=%v %s\n", path, ok, detail)
 		if ok {
@@ -851,6 +868,20 @@ func replayFile(rc *runCtx, path string) int {
 	}
 	if spec.ReplayExtra != nil {
 		return spec.ReplayExtra(rc, path, data)
+	}
+	if spec.Extra != nil {
+		// the violation came from the property's direct encoding (no GSX harness): the
+		// encoding is regenerated from /repo's current tree and decided again
+		ev := newEvidence(rc, spec)
+		n, broken := spec.Extra(rc, ev)
+		fmt.Printf("replay %s: the check was re-run on the current tree: %d violation(s)\n", path, n)
+		switch {
+		case n > 0:
+			return 1
+		case broken:
+			return 2
+		}
+		return 0
 	}
 	fmt.Println("harness of replay file not found")
 	return 2
